@@ -1230,8 +1230,7 @@ def run(chk):
             except Exception as ex:  # noqa: BLE001
                 chk.notes.setdefault("corpus_build_failed", []).append(f"{nm}: {type(ex).__name__}")
         cases = c02_cases(chk.tier)
-        if chk.tier != "quick":
-            cases += generated_cases(chk.seed, 72)
+        cases += generated_cases(chk.seed, 24 if chk.tier == "quick" else 96)
         for c in cases:
             forms_by_name.append((c.name, [c.make()]))
         corr_tables(chk, d, forms_by_name)
